@@ -39,7 +39,7 @@ _ALL = {
     "C13": {"suites": ["r-codec", "r-pair", "r-hostile", "r-server", "n-codec", "n-world"], "assumptions": [COUNTERS]},
     "C14": {"suites": ["r-pair", "r-server"], "assumptions": [MISUSE]},
     "C15": {"suites": ["r-pair", "r-server"], "assumptions": [HONEST]},
-    "C16": {"suites": ["r-codec", "r-pair", "r-hostile", "n-codec"], "assumptions": [COUNTERS]},
+    "C16": {"suites": ["r-codec", "r-pair", "r-hostile", "n-codec", "n-world"], "assumptions": [COUNTERS]},
     "C17": {"suites": ["n-codec", "n-world"], "assumptions": [NOFORGE, "distinct tokens carry distinct keys (random 256-bit values)", "one connection attempt per token"]},
     "C18": {"suites": ["n-world", "t-udp"], "assumptions": ["the network eventually delivers: stated as explicit good rounds"]},
     "C19": {"suites": ["n-world", "n-codec"], "assumptions": []},
